@@ -27,7 +27,7 @@ def run(prop, tier, seed, replay=None):
     if replay:
         srcs = [json.load(open(replay))['case']['src']]
     else:
-        for alpha, n in (('full', 3 if q else 4), ('dash', 6 if q else 8)):
+        for alpha, n in (('full', 3 if q else 4), ('dash', 6 if q else 7)):
             cfg = tlc.cfg_text(constants={'AlphaSet': alpha, 'MaxSym': n}, invariants=['RefSane', 'Dump'])
             r = c.tlc('all strings, alphabet %s, length <= %d' % (alpha, n), 'GenStr', cfg)
             srcs += [b['src'] for b in r.json('@@')]
